@@ -495,6 +495,14 @@ m("C10", "skip-queued-instead-of-received", GS,
   "	skipBlockCount := channel.ReceivedCidsTotal()",
   "	skipBlockCount := channel.QueuedCidsTotal()",
   "C10.3", "sender told to skip the wrong number of blocks")
+m("C10", "restart-ext-not-appended", GS,
+  "	exts = append(exts, restartExts...)\n",
+  "	_ = restartExts\n",
+  "C10.3", "restart request goes out without the skip-blocks extension")
+m("C10", "restart-ext-inverted", GS,
+  "	if channel == nil {\n		return nil, nil\n	}\n	return getDoNotSendFirstBlocksExtension(channel)",
+  "	if channel != nil {\n		return nil, nil\n	}\n	return nil, nil",
+  "C10.3", "stored channel yields no skip extension")
 m("C10", "pull-restart-without-channel", RS,
   "	if err := m.transport.OpenChannel(ctx, requestTo, chid, cidlink.Link{Cid: baseCid}, selector, channel, req); err != nil {",
   "	if err := m.transport.OpenChannel(ctx, requestTo, chid, cidlink.Link{Cid: baseCid}, selector, nil, req); err != nil {",
@@ -985,6 +993,11 @@ n(["C19", "C06"], "ispull-operands-swapped", CS,
   "	return c.ic.Initiator == c.ic.Recipient",
   "	return c.ic.Recipient == c.ic.Initiator",
   "operands of == swapped")
+n(["C10"], "restart-ext-helper-inlined", GS,
+  "	restartExts, err := t.getRestartExtension(ctx, dataSender, channel)\n	if err != nil {\n		return err\n	}\n	exts = append(exts, restartExts...)\n",
+  "	if channel != nil {\n		restartExts, err := getDoNotSendFirstBlocksExtension(channel)\n		if err != nil {\n			return err\n		}\n		exts = append(exts, restartExts...)\n	}\n",
+  "helper inlined into its caller",
+  more=[("func (t *Transport) getRestartExtension(ctx context.Context, p peer.ID, channel datatransfer.ChannelState) ([]graphsync.ExtensionData, error) {\n	if channel == nil {\n		return nil, nil\n	}\n	return getDoNotSendFirstBlocksExtension(channel)\n}\n", "")])
 n(["C10", "C18"], "restart-locals-inlined", RS,
   "	req, err := message.NewRequest(chid.ID, true, true, &voucher, baseCid, selector)",
   "	req, err := message.NewRequest(channel.ChannelID().ID, true, true, &voucher, channel.BaseCID(), selector)",
